@@ -334,8 +334,7 @@ def gen_request(r, defect=None):
         pkg = ".".join(ns + [name, ver])
         d = pkg.replace(".", "/")
         stems = (stems + [s for s in FILE_POOL if s not in stems])[:max(2, len(stems))]
-        svcs = svcs or [SVC_POOL[0]]
-        svcs = (svcs * 2)[:max(2, len(svcs))] if len(svcs) < 2 else svcs
+        svcs = svcs if len(svcs) >= 2 else r.sample(SVC_POOL, 2)
     for k, (stem, _) in enumerate(stems):
         p = pkg + "." + sub if (sub and k == len(stems) - 1 and k > 0) else pkg
         if defect == "nested" and k == len(stems) - 1:
